@@ -1,8 +1,9 @@
 ------------------------- MODULE SSHAuthServer_GenBig -------------------------
-(* Thorough-tier tables of check C33 (kept apart: TLC evaluates every constant definition at start-up). *)
+(* Thorough-tier configuration set of check C33 (kept apart: TLC evaluates every constant definition at start-up). *)
 EXTENDS SSHAuthServer_Gen
 
-SrcListsBig == (SeqsUpTo(SrcEntriesAll, 2) \cup SeqsUpTo({"ip_a1", "net_n2", "net_m1", "bad", "empty"}, 3)) \ {<<>>}
-TableSrcBig == SrcTable(SrcListsBig, BOOLEAN)
-TableC33Thorough == TableLimits @@ TableSrcBig @@ TableGeneral
+SrcListsAll2 == SeqsUpTo(SrcEntriesAll, 2) \ {<<>>}
+SrcLists3 == { l \in SeqsUpTo({"ip_a1", "net_m1", "bad", "empty"}, 3) : Len(l) = 3 }
+ConfigsSrcBig == SrcConfigs(SrcListsAll2, BOOLEAN) \cup SrcConfigs(SrcLists3, {TRUE})
+ConfigsC33Thorough == ConfigsLimits \cup ConfigsSrcBig \cup ConfigsGeneral
 =============================================================================
